@@ -79,45 +79,14 @@ theorem edgeProp_cons (x x' : Engine) (r : Run) (hr : x'.runs = r :: x.runs) (hs
   · simp only [hd, Bool.false_eq_true, if_false]
     cases r.eprops.lookup (e, k) <;> rfl
 
-/-- `node_properties`, key by key -/
-theorem nodeProps_lookup (x : Engine) (n k : Nat) :
-    (x.nodeProps n).lookup k =
-      (match npropRuns n k x.runs with
-       | some v => some v
-       | none => if x.propsRoot != 0 then lastNode x.store n k else none) := by
-  unfold Engine.nodeProps
-  by_cases h0 : (x.propsRoot != 0) = true
-  · simp only [h0, if_true]
-    rw [extendNode_lookup, mergeNProps_eq_npropRuns]
-    cases npropRuns n k x.runs <;> rfl
-  · simp only [h0, Bool.false_eq_true, if_false]
-    rw [mergeNProps_eq_npropRuns]
-    cases npropRuns n k x.runs <;> rfl
-
-theorem nodeProps_cons (x x' : Engine) (r : Run) (hr : x'.runs = r :: x.runs) (hst : x'.store = x.store)
-    (hroot : x'.propsRoot = x.propsRoot)
-    (hdel : x.propsRoot = 0 ∨ ∀ key ∈ r.nDel, storeHasN x key = false) (n k : Nat) :
-    (x'.nodeProps n).lookup k = pushNProp r n k ((x.nodeProps n).lookup k) := by
-  rw [nodeProps_lookup, nodeProps_lookup, hr, hst, hroot]
-  unfold pushNProp
-  simp only [npropRuns]
-  by_cases hd : r.nDel.contains (n, k) = true
-  · simp only [hd, if_true]
-    rcases hdel with h0 | hc
-    · simp [h0]
-    · have hm : (n, k) ∈ r.nDel := by simpa using hd
-      have := (store_clear x.store (.node n k) (hc (n, k) hm)).2
-      simp [lastNode, this]
-  · simp only [hd, Bool.false_eq_true, if_false]
-    cases r.nprops.lookup (n, k) <;> rfl
-
 theorem isTombNode_cons' (r : Run) (rs : List Run) (n : Nat) :
     isTombNode (r :: rs) n = (r.tombNodes.contains n || isTombNode rs n) := by
   simp [isTombNode]
 
 /-! ### the relation between the two engines -/
 
-/-- every read interface answers alike (neighbour lists as multisets, whole property maps key by key) -/
+/-- every read interface answers alike (neighbour lists as multisets; the whole property maps follow
+    from the single-key reads: `nodeProps_lookup`, `edgeProps_lookup`) -/
 structure Eqv (c : Cfg) (s u : Engine) : Prop where
   idmap : IdEq s.idmap u.idmap
   interner : s.interner = u.interner
@@ -127,11 +96,10 @@ structure Eqv (c : Cfg) (s u : Engine) : Prop where
   inc : ∀ n rel, PermOpt (s.incoming c n rel) (u.incoming c n rel)
   nprop : ∀ n k, s.nodeProp n k = u.nodeProp n k
   eprop : ∀ e k, s.edgeProp e k = u.edgeProp e k
-  nprops : ∀ n k, (s.nodeProps n).lookup k = (u.nodeProps n).lookup k
 
 theorem Eqv.refl (c : Cfg) (s : Engine) : Eqv c s s :=
   ⟨IdEq.refl _, rfl, rfl, fun _ => rfl, fun _ _ => PermOpt.refl _, fun _ _ => PermOpt.refl _, fun _ _ => rfl,
-   fun _ _ => rfl, fun _ _ => rfl⟩
+   fun _ _ => rfl⟩
 
 /-- the part of the state the reads of `Eqv` look at, besides the idmap -/
 structure RFrame (s s' : Engine) : Prop where
@@ -146,13 +114,12 @@ theorem RFrame.trans {a b c : Engine} (h1 : RFrame a b) (h2 : RFrame b c) : RFra
 
 theorem Eqv.congr {c : Cfg} {s u s1 u1 : Engine} (h : Eqv c s u) (fs : RFrame s s1) (fu : RFrame u u1)
     (hm : IdEq s1.idmap u1.idmap) (hi : s1.interner = u1.interner) (hv : s1.vecs = u1.vecs) : Eqv c s1 u1 := by
-  refine ⟨hm, hi, hv, ?_, ?_, ?_, ?_, ?_, ?_⟩
+  refine ⟨hm, hi, hv, ?_, ?_, ?_, ?_, ?_⟩
   · intro n; rw [fs.runs, fu.runs]; exact h.tomb n
   · intro n rel; unfold Engine.neighbors; rw [fs.runs, fs.segs, fu.runs, fu.segs]; exact h.out n rel
   · intro n rel; unfold Engine.incoming; rw [fs.runs, fs.segs, fu.runs, fu.segs]; exact h.inc n rel
   · intro n k; unfold Engine.nodeProp; rw [fs.runs, fs.store, fs.root, fu.runs, fu.store, fu.root]; exact h.nprop n k
   · intro e k; unfold Engine.edgeProp; rw [fs.runs, fs.store, fs.root, fu.runs, fu.store, fu.root]; exact h.eprop e k
-  · intro n k; unfold Engine.nodeProps; rw [fs.runs, fs.store, fs.root, fu.runs, fu.store, fu.root]; exact h.nprops n k
 
 /-! ### staging a transaction on the two engines -/
 
@@ -358,7 +325,7 @@ theorem commit_eqv (c : Cfg) {s u : Engine} {t t' : Txn} (hE : Eqv c s u) (hT : 
       simp only [removalsClear, hr, List.all_cons, Bool.and_eq_true, List.all_eq_true, Bool.not_eq_true'] at hclear
       have hN : ∀ key ∈ (t.mt.freeze t.txid).nDel, storeHasN s key = false := fun key hk => hclear.1.1 key hk
       have hEd : ∀ key ∈ (t.mt.freeze t.txid).eDel, storeHasE s key = false := fun key hk => hclear.1.2 key hk
-      refine ⟨a1', hE.interner, hvec, ?_, ?_, ?_, ?_, ?_, ?_⟩
+      refine ⟨a1', hE.interner, hvec, ?_, ?_, ?_, ?_, ?_⟩
       · intro n; rw [hr, hr', isTombNode_cons', isTombNode_cons', hE.tomb n, e1]
       · intro n rel
         rw [neighbors_cons s _ _ hr rfl, neighbors_cons u _ _ hr' rfl, e2]
@@ -370,8 +337,6 @@ theorem commit_eqv (c : Cfg) {s u : Engine} {t t' : Txn} (hE : Eqv c s u) (hT : 
         rw [nodeProp_cons s _ _ hr rfl rfl (Or.inr hN), nodeProp_cons u _ _ hr' rfl rfl (Or.inl hu), e4, hE.nprop]
       · intro e k
         rw [edgeProp_cons s _ _ hr rfl rfl (Or.inr hEd), edgeProp_cons u _ _ hr' rfl rfl (Or.inl hu), e5, hE.eprop]
-      · intro n k
-        rw [nodeProps_cons s _ _ hr rfl rfl (Or.inr hN), nodeProps_cons u _ _ hr' rfl rfl (Or.inl hu), e4, hE.nprops]
 
 theorem commit_root (c : Cfg) (s : Engine) (t : Txn) : (s.commit c t).1.propsRoot = s.propsRoot := by
   unfold Engine.commit
@@ -397,12 +362,11 @@ theorem tx_eqv (c : Cfg) {s u : Engine} (hE : Eqv c s u) (hu : u.propsRoot = 0) 
 /-! ### compaction on one of them -/
 
 theorem compact_eqv (c : Cfg) (hg : c.csrGuard = true) {s u : Engine} (hE : Eqv c s u)
-    (hs : compactSafe s = true) (hf : freshNodeKeys s = true) : Eqv c (s.compact c) u := by
+    (hs : compactSafe s = true) : Eqv c (s.compact c) u := by
   obtain ⟨hnt, hnd, hed, hroot⟩ := compactSafe_unpack s hs
-  simp only [freshNodeKeys, List.all_eq_true, Option.isNone_iff_eq_none] at hf
   have hid : (s.compact c).idmap = s.idmap ∧ (s.compact c).interner = s.interner ∧ (s.compact c).vecs = s.vecs := by
     unfold Engine.compact; split <;> exact ⟨rfl, rfl, rfl⟩
-  refine ⟨(IdEq.of_eq hid.1).trans hE.idmap, hid.2.1.trans hE.interner, hid.2.2.trans hE.vecs, ?_, ?_, ?_, ?_, ?_, ?_⟩
+  refine ⟨(IdEq.of_eq hid.1).trans hE.idmap, hid.2.1.trans hE.interner, hid.2.2.trans hE.vecs, ?_, ?_, ?_, ?_, ?_⟩
   · intro n
     rw [← hE.tomb n, isTombNode_noTombs s.runs hnt n]
     cases he : s.runs.isEmpty with
@@ -414,16 +378,15 @@ theorem compact_eqv (c : Cfg) (hg : c.csrGuard = true) {s u : Engine} (hE : Eqv 
   · intro n rel; exact (compact_incoming c s hnt (Or.inl hg) n rel).trans (hE.inc n rel)
   · intro n k; rw [compact_nodeProp c s hnd hroot]; exact hE.nprop n k
   · intro e k; rw [compact_edgeProp c s hed hroot]; exact hE.eprop e k
-  · intro n k; rw [compact_nodeProps c s hnd hroot hf]; exact hE.nprops n k
 
 /-! ### histories -/
 
-/-- every compaction of the history starts from a `compactSafe` state with fresh node keys, and after
-    every transaction no published removal sits over a store value (decidable: it runs the model) -/
+/-- every compaction of the history starts from a `compactSafe` state, and after every transaction no
+    published removal sits over a store value (decidable: it runs the model) -/
 def compactHistSafe (c : Cfg) : Engine → List Op → Bool
   | _, [] => true
   | s, .tx ops b :: h => removalsClear (runTx c s ops b) && compactHistSafe c (runTx c s ops b) h
-  | s, .compact :: h => compactSafe s && freshNodeKeys s && compactHistSafe c (s.compact c) h
+  | s, .compact :: h => compactSafe s && compactHistSafe c (s.compact c) h
   | _, _ :: _ => false
 
 def notCompact : Op → Bool
@@ -452,7 +415,7 @@ theorem hist_eqv (c : Cfg) (hg : c.csrGuard = true) : ∀ (h : List Op) (s u : E
         rw [List.filter_cons_of_pos (by rfl), List.foldlM_cons]; exact h2
     | compact =>
       simp only [compactHistSafe, Bool.and_eq_true] at hs
-      obtain ⟨s', u', h1, h2, h3⟩ := ih _ _ (compact_eqv c hg hE hs.1.1 hs.1.2) hu hs.2
+      obtain ⟨s', u', h1, h2, h3⟩ := ih _ _ (compact_eqv c hg hE hs.1) hu hs.2
       refine ⟨s', u', ?_, ?_, h3⟩
       · rw [List.foldlM_cons]; exact h1
       · show ((Op.compact :: h).filter notCompact).foldlM (runOp c) u = _
@@ -462,14 +425,13 @@ theorem hist_eqv (c : Cfg) (hg : c.csrGuard = true) : ∀ (h : List Op) (s u : E
 
 theorem Eqv.symm {c : Cfg} {s u : Engine} (h : Eqv c s u) : Eqv c u s :=
   ⟨h.idmap.symm, h.interner.symm, h.vecs.symm, fun n => (h.tomb n).symm, fun n rel => (h.out n rel).symm,
-   fun n rel => (h.inc n rel).symm, fun n k => (h.nprop n k).symm, fun e k => (h.eprop e k).symm,
-   fun n k => (h.nprops n k).symm⟩
+   fun n rel => (h.inc n rel).symm, fun n k => (h.nprop n k).symm, fun e k => (h.eprop e k).symm⟩
 
 theorem Eqv.trans {c : Cfg} {a b d : Engine} (h1 : Eqv c a b) (h2 : Eqv c b d) : Eqv c a d :=
   ⟨h1.idmap.trans h2.idmap, h1.interner.trans h2.interner, h1.vecs.trans h2.vecs,
    fun n => (h1.tomb n).trans (h2.tomb n), fun n rel => (h1.out n rel).trans (h2.out n rel),
    fun n rel => (h1.inc n rel).trans (h2.inc n rel), fun n k => (h1.nprop n k).trans (h2.nprop n k),
-   fun e k => (h1.eprop e k).trans (h2.eprop e k), fun n k => (h1.nprops n k).trans (h2.nprops n k)⟩
+   fun e k => (h1.eprop e k).trans (h2.eprop e k)⟩
 
 /-- what `Eqv` means for the read interfaces -/
 theorem Eqv.reads {c : Cfg} {s u : Engine} (h : Eqv c s u) :
@@ -478,10 +440,13 @@ theorem Eqv.reads {c : Cfg} {s u : Engine} (h : Eqv c s u) :
     (∀ n rel, PermOpt (s.incoming c n rel) (u.incoming c n rel)) ∧
     (∀ n k, s.nodeProp n k = u.nodeProp n k) ∧ (∀ e k, s.edgeProp e k = u.edgeProp e k) ∧
     (∀ n k, (s.nodeProps n).lookup k = (u.nodeProps n).lookup k) ∧
+    (∀ e k, (s.edgeProps e).lookup k = (u.edgeProps e).lookup k) ∧
     s.nodeLabels = u.nodeLabels ∧ s.nodeLabelNames = u.nodeLabelNames ∧ s.resolveExternal = u.resolveExternal ∧
     s.lookupInternal = u.lookupInternal ∧ s.interner = u.interner ∧ s.vecNodes = u.vecNodes := by
   have hl : s.nodeLabels = u.nodeLabels := by funext n; unfold Engine.nodeLabels; rw [h.idmap.i2l]
-  refine ⟨?_, ?_, ?_, h.out, h.inc, h.nprop, h.eprop, h.nprops, hl, ?_, ?_, ?_, h.interner, ?_⟩
+  refine ⟨?_, ?_, ?_, h.out, h.inc, h.nprop, h.eprop,
+    (fun n k => by rw [nodeProps_lookup, nodeProps_lookup]; exact h.nprop n k),
+    (fun e k => by rw [edgeProps_lookup, edgeProps_lookup]; exact h.eprop e k), hl, ?_, ?_, ?_, h.interner, ?_⟩
   · unfold Engine.nodes liveNodeIds; rw [h.idmap.i2e]
     apply List.filter_congr; intro n _; rw [h.tomb n]
   · unfold Engine.nodesSnap liveNodeIds; rw [h.idmap.i2l]
